@@ -116,6 +116,25 @@ impl SendWindow {
         }
     }
 
+    /// Check that the ACK seq num in the incoming packet (if any) acknowledges
+    /// a BTP segment which was sent and is not acknowledged yet.
+    fn check_incoming(&self, hdr: &BtpHdr) -> Result<(), Error> {
+        if let Some(ack_seq_num) = hdr.get_ack() {
+            let outstanding = self.window_size - self.level;
+            let unacknowledged = (Wrapping(self.last_sent_seq_num) - Wrapping(ack_seq_num)).0;
+
+            if unacknowledged >= outstanding {
+                warn!(
+                    "RX data integrity failure: ACK for sequence number {} which is not awaiting an ACK",
+                    ack_seq_num
+                );
+                Err(ErrorCode::InvalidData)?;
+            }
+        }
+
+        Ok(())
+    }
+
     /// Return true if the sending window is full.
     ///
     /// A reference to the receiving window is necessary, because - as per the Matter Core spec -
@@ -680,6 +699,7 @@ impl Session {
             payload.len()
         );
 
+        self.send_window.check_incoming(&hdr)?;
         self.recv_window.accept_incoming(&hdr, payload, self.mtu)?;
         self.send_window.accept_incoming(&hdr);
 
